@@ -861,6 +861,21 @@ def setitem(ctx: Ctx, a: Arr, key, value):
         a.fn = lambda r, c: T.Ite(has(T.tz(c)), cast_elem(vfn(r, last(T.tz(c))), dt), old(r, c))
         ctx.log_ghost("colscatter", (has, last))
         return
+    if (a.ndim == 2 and len(keys) == 2 and isinstance(keys[0], slice) and keys[0] == slice(None) and is_arr(keys[1])
+            and keys[1].ndim == 1 and keys[1].dtype == "bool"):
+        # column mask a[:, m] = value: the selected columns, in ascending order, receive the columns of the value
+        m = keys[1]
+        if not same_extent(ctx, m.shape[0], a.shape[1]):
+            raise PyRaise("IndexError", "boolean index did not match", ctx.cur_line)
+        if not is_arr(value):
+            a.fn = lambda r, c: T.Ite(T.tz(m.fn(c)), cast_elem(value, dt), old(r, c))
+            return
+        if value.ndim != 2:
+            raise PathAbort("column mask assignment with a non-matrix value", ctx.cur_line)
+        K, sel, rk = select_true(ctx, m)
+        ctx.raise_unless(T.And(T.eq(value.shape[0], a.shape[0]), T.eq(value.shape[1], K)), "ValueError", "shape mismatch in masked assignment")
+        a.fn = lambda r, c: T.Ite(T.tz(m.fn(c)), cast_elem(value.fn(r, rk(T.tz(c))), dt), old(r, c))
+        return
     raise PathAbort("advanced assignment form", ctx.cur_line)
 
 
